@@ -1,0 +1,17 @@
+//go:build verif
+// +build verif
+
+package native
+
+// Verification hook (build tag "verif" only): lets the simulator make a native contract call
+// fail *after* the handler produced all of its writes, events and cross-chain records, to
+// check that a failed transaction leaves no trace.
+
+var PostInvokeHook func(service *NativeService, method string) error
+
+func verifPostInvoke(service *NativeService, method string) error {
+	if PostInvokeHook != nil {
+		return PostInvokeHook(service, method)
+	}
+	return nil
+}
